@@ -11,14 +11,13 @@ namespace Rbgp.Monitor
 def opOk (n : Nat) : Op → Bool
   | .ins k _ _ _ => decide (k < n)
   | .rem k _ _ => decide (k < n)
+  -- the purge class is outside the proved fragment (finding S28b)
+  | .gdown | .purge | .dropfam | .llgr | .lpurge => false
   | _ => true
 
-/-- the case only names shards that exist (the parser enforces it) -/
+/-- the case only names shards that exist (the parser enforces it) and uses no operation of the
+    purge class -/
 def caseOk (c : Case) : Bool := c.threads.all fun t => t.2.all (opOk c.n)
-
-def dropSeg (k : Nat) : List Instr := [.yld (.lock k), .acquire k, .commitDrop k, .release k]
-def srSeg (k : Nat) : List Instr := [.yld (.lock k), .acquire k, .loadSubs, .yld .loaded, .commitSr k, .release k]
-def snapSeg (k : Nat) : List Instr := [.yld (.lock k), .acquire k, .snap k, .release k]
 
 def dAfter (ks : List Nat) (d : Option (List Nat)) : Option (List Nat) :=
   ks.foldl (fun d k => some (k :: d.getD [])) d
@@ -40,40 +39,43 @@ theorem dAfter_mem : ∀ (ks : List Nat) (d : Option (List Nat)) (x : Nat),
 
 theorem wfp_dropLoop (n me : Nat) (tail : List Instr) : ∀ (ks : List Nat) (f : Bool) (d : Option (List Nat)),
     (∀ k ∈ ks, k < n) → (∀ f', wfp n me tail none f' (dAfter ks d) none = true) →
-    wfp n me (ks.flatMap dropSeg ++ tail) none f d none = true := by
+    wfp n me (ks.flatMap (fun k => lockSec k [.commitDrop k]) ++ tail) none f d none = true := by
+  simp only [lockSec]
   intro ks
   induction ks with
   | nil => intro f d _ h; simpa [dAfter] using h f
   | cons k r ih =>
     intro f d hk h
     have hk0 : k < n := hk k (by simp)
-    simp only [List.flatMap_cons, dropSeg, List.cons_append, List.nil_append, wfp]
+    simp only [List.flatMap_cons, List.cons_append, List.nil_append, wfp]
     simp [hk0]
     exact ih false _ (fun k' hk' => hk k' (by simp [hk'])) (by simpa [dAfter] using h)
 
-theorem wfp_srLoop (n me : Nat) (tail : List Instr) : ∀ (ks : List Nat) (f : Bool),
+theorem wfp_srLoop (n me p : Nat) (tail : List Instr) : ∀ (ks : List Nat) (f : Bool),
     (∀ k ∈ ks, k < n) → (∀ f', wfp n me tail none f' none none = true) →
-    wfp n me (ks.flatMap srSeg ++ tail) none f none none = true := by
+    wfp n me (ks.flatMap (fun k => lockSec k [.loadSubs, .yld .loaded, .commitSr k p]) ++ tail) none f none none = true := by
+  simp only [lockSec]
   intro ks
   induction ks with
   | nil => intro f _ h; simpa using h f
   | cons k r ih =>
     intro f hk h
     have hk0 : k < n := hk k (by simp)
-    simp only [List.flatMap_cons, srSeg, List.cons_append, List.nil_append, wfp]
+    simp only [List.flatMap_cons, List.cons_append, List.nil_append, wfp]
     simp [hk0]
     exact ih false (fun k' hk' => hk k' (by simp [hk'])) h
 
 theorem wfp_snapLoop (n me : Nat) (tail : List Instr) : ∀ (ks : List Nat) (f : Bool) (l : List Nat),
     (∀ k ∈ ks, k < n) → (∀ f', wfp n me tail none f' none (some (ks.reverse ++ l)) = true) →
-    wfp n me (ks.flatMap snapSeg ++ tail) none f none (some l) = true := by
+    wfp n me (ks.flatMap (fun k => lockSec k [.snap k]) ++ tail) none f none (some l) = true := by
+  simp only [lockSec]
   intro ks
   induction ks with
   | nil => intro f l _ h; simpa using h f
   | cons k r ih =>
     intro f l hk h
     have hk0 : k < n := hk k (by simp)
-    simp only [List.flatMap_cons, snapSeg, List.cons_append, List.nil_append, wfp]
+    simp only [List.flatMap_cons, List.cons_append, List.nil_append, wfp]
     simp [hk0]
     exact ih false _ (fun k' hk' => hk k' (by simp [hk'])) (by simpa using h)
 
@@ -86,9 +88,9 @@ theorem compile_wf_op (n me : Nat) (op : Op) (hop : opOk n op = true) (rest : Li
     wfp n me (compile n me op ++ rest) none f none none = true := by
   have hr : ∀ k ∈ List.range n, k < n := fun k hk => List.mem_range.mp hk
   cases op with
-  | up => simpa [compile, wfp] using hrest f
+  | up => simp only [compile, List.cons_append, List.nil_append, wfp]; simpa using hrest f
   | down =>
-    simp only [compile, perShard, List.cons_append, List.nil_append, List.append_assoc, wfp]
+    simp only [compile, bulk, perShard, List.cons_append, List.nil_append, List.append_assoc, wfp]
     simp
     apply wfp_dropLoop n me _ (List.range n) false none hr
     intro f'
@@ -100,18 +102,23 @@ theorem compile_wf_op (n me : Nat) (op : Op) (hop : opOk n op = true) (rest : Li
     exact dAfter_mem (List.range n) none k (Or.inl (List.mem_range.mpr hk))
   | ins k j pid a =>
     simp [opOk] at hop
-    simp [compile, wfp, hop]; exact hrest false
+    simp [compile, lockSec, wfp, hop]; exact hrest false
   | rem k j pid =>
     simp [opOk] at hop
-    simp [compile, wfp, hop]; exact hrest false
-  | sr =>
+    simp [compile, lockSec, wfp, hop]; exact hrest false
+  | sr p =>
     simp only [compile, perShard, List.cons_append, List.nil_append, List.append_assoc, wfp]
-    apply wfp_srLoop n me _ (List.range n) f hr
+    apply wfp_srLoop n me p _ (List.range n) f hr
     intro f'; simpa [wfp] using hrest f'
-  | pol p => simpa [compile, wfp] using hrest f
+  | pol p => simp only [compile, List.cons_append, List.nil_append, wfp]; simpa using hrest f
+  | gdown => simp [opOk] at hop
+  | purge => simp [opOk] at hop
+  | dropfam => simp [opOk] at hop
+  | llgr => simp [opOk] at hop
+  | lpurge => simp [opOk] at hop
   | sub want =>
     cases want with
-    | false => simpa [compile, wfp] using hrest f
+    | false => simp [compile, wfp]; exact hrest f
     | true =>
       simp only [compile, perShard, if_true, List.cons_append, List.nil_append, List.append_assoc, wfp]
       simp
@@ -120,7 +127,15 @@ theorem compile_wf_op (n me : Nat) (op : Op) (hop : opOk n op = true) (rest : Li
       simp only [wfp]
       simp
       exact ⟨by simpa using cover_range_rev n [], hrest f'⟩
-  | unsub => simpa [compile, wfp] using hrest f
+  | bmp =>
+    simp only [compile, perShard, List.cons_append, List.nil_append, List.append_assoc, wfp]
+    simp
+    apply wfp_snapLoop n me _ (List.range n) f [] hr
+    intro f'
+    simp only [wfp]
+    simp
+    exact ⟨by simpa using cover_range_rev n [], hrest f'⟩
+  | unsub => simp only [compile, List.cons_append, List.nil_append, wfp]; simpa using hrest f
 
 /-- every compiled program is well-formed -/
 theorem compile_wf (n me : Nat) : ∀ (ops : List Op), (ops.all (opOk n) = true) → ∀ f,
@@ -163,6 +178,7 @@ theorem init_inv (c : Case) (hc : caseOk c = true) : Inv (init c) := by
   · intro s hs; cases hs
   · intro i r hr; cases h : c.threads[i]? <;> simp [initThreads, h] at hr
   · intro s m key h; exact absurd h (touched_nil m key)
+  · intro s hs; cases hs
   · intro key ⟨l, hl, _⟩; cases h : c.threads[key.peer]? <;> simp [initThreads, h] at hl
   · intro i s k hi; cases h : c.threads[i]? <;> simp [initThreads, h] at hi
   · intro s hs; cases hs
@@ -235,7 +251,6 @@ theorem last_current {st : St} (hI : Inv st) (hq : quiescent st) {s : Nat} (hs :
   rcases hI.viewI s hs m key (Or.inl ht) with h | h
   · exact h
   · exact absurd h (quiescent_not_dropped hI hq key)
-
 
 /-! ## The scheduler -/
 
@@ -457,7 +472,6 @@ theorem finished_quiescent {st : St} (hI : Inv st) (h : finished st = true) : qu
     simpa using h i hi
   · exact (hI.idle i (Nat.le_of_not_lt hi)).1
 
-
 open Rbgp.Monitor.Spec
 
 /-! ## The observation and the reference checker -/
@@ -584,9 +598,11 @@ theorem forward_ok : ∀ (evs : List Ev) (sent ups : List Nat), (∀ p ∈ sent,
     | post k v => simp only [forward]; exact ih _ _ hsub
     | eos => simp only [forward]; exact ih _ _ hsub
 
-theorem checkKeys_map {want : Bool} (f : Key → List Item × List Item) (g : Key → Option Nat × Option Nat) :
-    ∀ (u : List Key) (pos : Nat), (∀ key ∈ u, Spec.checkKey want (f key) (g key) = none) →
-    Spec.checkKeys want pos (u.map f) (u.map g) = none := by
+theorem checkKeys_map {cl : Key → String → String}
+    {fc : List Item × List Item → Option Nat × Option Nat → Option String}
+    (f : Key → List Item × List Item) (g : Key → Option Nat × Option Nat) :
+    ∀ (u : List Key) (pos : Nat), (∀ key ∈ u, fc (f key) (g key) = none) →
+    Spec.checkKeys cl fc pos u (u.map f) (u.map g) = none := by
   intro u
   induction u with
   | nil => intro _ _; rfl
@@ -595,8 +611,8 @@ theorem checkKeys_map {want : Bool} (f : Key → List Item × List Item) (g : Ke
     simp only [List.map_cons, Spec.checkKeys, h k (by simp)]
     exact ih _ (fun key hk => h key (by simp [hk]))
 
-theorem checkSubs_ok (rib : List (Option Nat × Option Nat)) : ∀ (l : List SubObs) (i : Nat),
-    (∀ s ∈ l, Spec.checkSub rib s = none) → Spec.checkSubs rib i l = .ok := by
+theorem checkSubs_ok (c : Case) (u : List Key) (rib : List (Option Nat × Option Nat)) : ∀ (l : List SubObs) (i : Nat),
+    (∀ s ∈ l, Spec.checkSub c u rib s = none) → Spec.checkSubs c u rib i l = .ok := by
   intro l
   induction l with
   | nil => intro _ _; rfl
@@ -616,10 +632,32 @@ theorem mem_enumFrom' {α} : ∀ (l : List α) (i : Nat) (p : Nat × α), p ∈ 
     · simp
     · exact List.mem_cons_of_mem _ (ih _ _ h)
 
-/-- The master theorem: for every well-formed case — any number of shards, writer sessions and
-    subscribers, any schedule — the reference checker written from the property text accepts the
-    observation of the model's run. -/
-theorem check_run_ok (c : Case) (hc : caseOk c = true) : Spec.check c (observe c (run c)) = .ok := by
+theorem eos_mem_ctlOf : ∀ (q : List Ev), Ev.eos ∈ q → Ev.eos ∈ ctlOf q := by
+  intro q
+  induction q with
+  | nil => intro h; cases h
+  | cons e r ih =>
+    intro h
+    cases e with
+    | eos => simp [ctlOf]
+    | up p => simp at h; simp [ctlOf, ih h]
+    | down p => simp at h; simp [ctlOf, ih h]
+    | pre k v => simp at h; simpa [ctlOf] using ih h
+    | post k v => simp at h; simpa [ctlOf] using ih h
+
+/-- no BMP client connection in the case (that clause of the checker is backed by the
+    correspondence run and the oracle on the real connection, not by this theorem) -/
+def noBmp (c : Case) : Bool := c.threads.all fun t => t.2.all fun o => o != .bmp
+
+/-- every subscription record of a thread without `bmp` operations is a channel subscription -/
+def NoBmpRecs (st : St) : Prop := ∀ i, ∀ r ∈ (st.threads i).mysubs, r.bmp = false
+
+/-- The master theorem: for every well-formed case without operations of the purge class and
+    without BMP connections — any number of shards, writer sessions and subscribers, any
+    schedule — the reference checker written from the property text accepts the observation of
+    the model's run. -/
+theorem check_run_ok (c : Case) (hc : caseOk c = true) (hnb : NoBmpRecs (run c)) :
+    Spec.check c (observe c (run c)) = .ok := by
   have hr := run_reach c
   have hI := reach_inv hc hr
   have hfin := run_finished c hc
@@ -632,32 +670,27 @@ theorem check_run_ok (c : Case) (hc : caseOk c = true) : Spec.check c (observe c
   obtain ⟨i, _, ⟨p, hp, rfl⟩⟩ := hso
   obtain ⟨nth, r⟩ := p
   have hr' : r ∈ ((run c).threads i).mysubs := mem_enumFrom' _ _ _ hp
+  have hb : r.bmp = false := hnb i r hr'
   unfold Spec.checkSub
-  have hfw : Spec.downsFollowUps (subObs (run c) (keyUniverse c) i nth r).fwd [] = true := by
-    simp only [subObs]
-    split <;> exact forward_ok _ _ _ (by simp)
+  simp only [subObs, hb, Bool.false_eq_true, if_false]
+  have hfw : Spec.downsFollowUps (forward (if r.want = true then afterEos ((run c).queues r.sid) else (run c).queues r.sid) []) [] = true :=
+    forward_ok _ _ _ (by simp)
   rw [hfw]
   simp only [Bool.not_true, Bool.false_eq_true, if_false]
   by_cases hlive : r.sid ∈ (run c).subscribers
-  · have hl : (subObs (run c) (keyUniverse c) i nth r).live = true := by
-      simp only [subObs]; simpa using hlive
-    rw [hl]
-    simp only [Bool.not_true, Bool.false_eq_true, if_false]
-    have hh : (subObs (run c) (keyUniverse c) i nth r).hist =
-        (keyUniverse c).map fun key => (histPre key ((run c).queues r.sid), histPost key ((run c).queues r.sid)) := by
-      simp only [subObs]
-    have hw : (subObs (run c) (keyUniverse c) i nth r).want = r.want := by
-      simp only [subObs]
-    rw [hh, hw]
-    apply checkKeys_map
-    intro key _
-    unfold Spec.checkKey
+  · simp only [hlive, decide_true, Bool.not_true, Bool.false_eq_true, if_false]
     cases hwant : r.want with
     | true =>
       have hcomp : r.sid ∈ (run c).complete := by
         rcases hI.recs i r hr' hwant with h | ⟨l, hl⟩
         · exact h
         · rw [(quiescent_thread hI hq i).2.2] at hl; cases hl
+      have heos : (ctlOf ((run c).queues r.sid)).contains Ev.eos = true := by
+        simpa using eos_mem_ctlOf _ (hI.eosI _ hcomp)
+      simp only [heos, Bool.not_true, Bool.and_false, Bool.false_eq_true, if_false]
+      apply checkKeys_map
+      intro key _
+      unfold Spec.checkKey
       have h1 := reconstruct hI hq hlive hcomp false key
       have h2 := reconstruct hI hq hlive hcomp true key
       simp only [if_true]
@@ -667,6 +700,10 @@ theorem check_run_ok (c : Case) (hc : caseOk c = true) : Spec.check c (observe c
         unfold Spec.held; rw [held_histPost]; exact h2
       simp only [e1, e2, cmp_self]
     | false =>
+      simp only [Bool.false_and, Bool.false_eq_true, if_false]
+      apply checkKeys_map
+      intro key _
+      unfold Spec.checkKey
       simp only [Bool.false_eq_true, if_false]
       have e1 : (if Spec.touched (histPre key ((run c).queues r.sid)) = true then
           Spec.cmp "nosnap-pre" (Spec.held (histPre key ((run c).queues r.sid))) (preOf (run c) key) else none) = none := by
@@ -687,10 +724,7 @@ theorem check_run_ok (c : Case) (hc : caseOk c = true) : Spec.check c (observe c
           rw [e, cmp_self]
         · rfl
       simp only [e1, e2]
-  · have hl : (subObs (run c) (keyUniverse c) i nth r).live = false := by
-      simp only [subObs]; simpa using hlive
-    rw [hl]; rfl
-
+  · simp only [hlive, decide_false, Bool.not_false, if_true]
 
 /-! ## The consumer's snapshot maps (bmp.rs `apply_snapshot`) -/
 
@@ -730,10 +764,29 @@ theorem SnapMap.get_insert (m : SnapMap) (k k' : Key) (v : Nat) :
       simp [this]; simpa using he
     | some x => rw [hf] at he; simpa using he
 
-/-- the same fold as `view`, but without PeerDown and only up to `EndOfSnapshot` -/
+theorem SnapMap.get_dropPeer (m : SnapMap) (p : Nat) (k' : Key) :
+    (m.dropPeer p).get k' = if k'.peer = p then none else m.get k' := by
+  induction m with
+  | nil => simp [SnapMap.dropPeer, SnapMap.get]
+  | cons kv r ih =>
+    simp only [SnapMap.dropPeer, SnapMap.get] at ih ⊢
+    by_cases h1 : kv.1.peer = p
+    · by_cases h2 : k'.peer = p
+      · simp [h1, h2] at ih ⊢; exact ih
+      · have hk : ¬ kv.1 = k' := fun e => h2 (by rw [← e, h1])
+        simp [h1, h2, hk] at ih ⊢; exact ih
+    · by_cases h2 : k'.peer = p
+      · have hk : ¬ kv.1 = k' := fun e => h1 (by rw [e, h2])
+        simp [h1, h2, hk] at ih ⊢; exact ih
+      · by_cases h3 : kv.1 = k'
+        · simp [h2, h3]
+        · simp [h1, h2, h3] at ih ⊢; exact ih
+
+/-- the same fold as `view` (a PeerDown clears the peer's entries), up to `EndOfSnapshot` -/
 def foldSnap (m : Bool) (key : Key) : List Ev → Option Nat → Option Nat
   | [], acc => acc
   | .eos :: _, acc => acc
+  | .down p :: r, acc => foldSnap m key r (if p = key.peer then none else acc)
   | e :: r, acc =>
       foldSnap m key r (match proj m e with | some (k, v) => if k = key then v else acc | none => acc)
 
@@ -750,7 +803,14 @@ theorem drain_get (key : Key) : ∀ (q : List Ev) (a b : SnapMap),
     cases e with
     | eos => simp [drainSnapshot, foldSnap]
     | up p => simpa [drainSnapshot, foldSnap, proj] using ih a b
-    | down p => simpa [drainSnapshot, foldSnap, proj] using ih a b
+    | down p =>
+      have := ih (a.dropPeer p) (b.dropPeer p)
+      simp only [drainSnapshot, foldSnap]
+      rw [this.1, this.2, SnapMap.get_dropPeer, SnapMap.get_dropPeer]
+      by_cases h : p = key.peer
+      · simp [h]
+      · have : ¬ key.peer = p := fun e => h e.symm
+        simp [h, this]
     | pre k v =>
       have := ih (applySnapshot a k v) b
       simp only [drainSnapshot, foldSnap, proj]
@@ -769,5 +829,150 @@ theorem drain_get (key : Key) : ∀ (q : List Ev) (a b : SnapMap),
       cases v with
       | none => simp only [applySnapshot, SnapMap.get_erase]; by_cases h : key = k <;> simp [h, eq_comm]
       | some x => simp only [applySnapshot, SnapMap.get_insert]; by_cases h : key = k <;> simp [h, eq_comm]
+
+theorem markDead_bmp : ∀ (l : List SubRec) {s l'}, markDead l = some (s, l') →
+    ∀ r' ∈ l', ∃ r ∈ l, r.bmp = r'.bmp := by
+  intro l
+  induction l with
+  | nil => intro s l' h; simp [markDead] at h
+  | cons r rest ih =>
+    intro s l' h r' hr'
+    simp only [markDead] at h
+    cases hm : markDead rest with
+    | some p =>
+      obtain ⟨s1, rest'⟩ := p
+      simp [hm] at h
+      obtain ⟨_, rfl⟩ := h
+      simp at hr'
+      rcases hr' with rfl | hr'
+      · exact ⟨r', by simp, rfl⟩
+      · obtain ⟨r0, hr0, h1⟩ := ih hm r' hr'
+        exact ⟨r0, by simp [hr0], h1⟩
+    | none =>
+      simp [hm] at h
+      obtain ⟨_, _, rfl⟩ := h
+      simp at hr'
+      rcases hr' with rfl | hr'
+      · exact ⟨r, by simp, rfl⟩
+      · exact ⟨r', by simp [hr'], rfl⟩
+
+/-- the subscription records after a step: old ones (same `bmp` flag), or the one a `register`
+    step has just created -/
+theorem step_mysubs {st st' : St} {i : Nat} {ins : Instr} {rest : List Instr}
+    (hp : (st.threads i).pgm = ins :: rest) (hs : step i st = some st') (j : Nat) :
+    ∀ r' ∈ (st'.threads j).mysubs, (∃ r ∈ (st.threads j).mysubs, r.bmp = r'.bmp) ∨
+      (∃ w, ins = .register w r'.bmp) := by
+  have hother : ∀ (t' : Thread), j ≠ i → ∀ r' ∈ (updT st.threads i t' j).mysubs,
+      (∃ r ∈ (st.threads j).mysubs, r.bmp = r'.bmp) ∨ (∃ w, ins = .register w r'.bmp) := by
+    intro t' hj r' hr'; rw [updT_ne _ _ hj] at hr'; exact Or.inl ⟨r', hr', rfl⟩
+  have hsame : ∀ (t' : Thread), t'.mysubs = (st.threads i).mysubs → ∀ r' ∈ (updT st.threads i t' j).mysubs,
+      (∃ r ∈ (st.threads j).mysubs, r.bmp = r'.bmp) ∨ (∃ w, ins = .register w r'.bmp) := by
+    intro t' ht r' hr'
+    by_cases hj : j = i
+    · subst hj; simp only [updT_self, ht] at hr'; exact Or.inl ⟨r', hr', rfl⟩
+    · exact hother t' hj r' hr'
+  cases ins <;> simp only [step, hp] at hs
+  case yld y => injection hs with hs; subst hs; cases y <;> exact hsame _ rfl
+  case acquire k =>
+    split at hs
+    · injection hs with hs; subst hs; exact hsame _ rfl
+    · cases hs
+  case commitIns key a => split at hs <;> (injection hs with hs; subst hs; exact hsame _ rfl)
+  case commitRem key => split at hs <;> (injection hs with hs; subst hs; exact hsame _ rfl)
+  case snap k => split at hs <;> (injection hs with hs; subst hs; exact hsame _ rfl)
+  case register w b =>
+    injection hs with hs; subst hs
+    intro r' hr'
+    by_cases hj : j = i
+    · subst hj
+      simp only [updT_self, List.mem_append, List.mem_singleton] at hr'
+      rcases hr' with hr' | rfl
+      · exact Or.inl ⟨r', hr', rfl⟩
+      · exact Or.inr ⟨w, rfl⟩
+    · exact hother _ hj r' hr'
+  case sentinel =>
+    split at hs
+    · injection hs with hs; subst hs
+      intro r' hr'
+      by_cases hj : j = i
+      · subst hj
+        simp only [updT_self] at hr'
+        obtain ⟨r0, hr0, hrr⟩ := mem_setLast hr'
+        refine Or.inl ⟨r0, hr0, ?_⟩
+        rcases hrr with rfl | rfl <;> rfl
+      · exact hother _ hj r' hr'
+    · injection hs with hs; subst hs; exact hsame _ rfl
+  case unsubscribe =>
+    split at hs
+    · rename_i s ms hm
+      injection hs with hs; subst hs
+      intro r' hr'
+      by_cases hj : j = i
+      · subst hj
+        simp only [updT_self] at hr'
+        obtain ⟨r0, hr0, hb⟩ := markDead_bmp _ hm r' hr'
+        exact Or.inl ⟨r0, hr0, hb⟩
+      · exact hother _ hj r' hr'
+    · injection hs with hs; subst hs; exact hsame _ rfl
+  all_goals (injection hs with hs; subst hs; exact hsame _ rfl)
+
+theorem compile_noBmp (n me : Nat) (op : Op) (h : op ≠ .bmp) (w : Bool) :
+    Instr.register w true ∉ compile n me op := by
+  cases op <;> simp [compile, lockSec, bulk, perShard] at h ⊢
+
+/-- no thread will ever create a BMP subscription, and none exists -/
+def NB (st : St) : Prop :=
+  (∀ i w, Instr.register w true ∉ (st.threads i).pgm) ∧ NoBmpRecs st
+
+theorem init_NB (c : Case) (h : noBmp c = true) : NB (init c) := by
+  constructor
+  · intro i w hm
+    simp only [init, initThreads] at hm
+    cases ht : c.threads[i]? with
+    | none => simp [ht] at hm
+    | some t =>
+      obtain ⟨wr, ops⟩ := t
+      simp only [ht, compileAll, List.mem_flatMap] at hm
+      obtain ⟨op, hop, hin⟩ := hm
+      have hmem : (wr, ops) ∈ c.threads := List.mem_of_getElem? ht
+      have : op ≠ .bmp := by
+        simp only [noBmp, List.all_eq_true] at h
+        have := h _ hmem op hop
+        simpa using this
+      exact compile_noBmp c.n i op this w hin
+  · intro i r hr
+    simp only [init, initThreads] at hr
+    cases ht : c.threads[i]? <;> simp [ht] at hr
+
+theorem step_NB {st st' : St} {i : Nat} (h : NB st) (hs : step i st = some st') : NB st' := by
+  cases hp : (st.threads i).pgm with
+  | nil => simp [step, hp] at hs
+  | cons ins rest =>
+    obtain ⟨_, h2, h3⟩ := step_frame hp hs
+    constructor
+    · intro j w hm
+      by_cases hj : j = i
+      · subst hj; rw [h2] at hm
+        exact h.1 j w (by rw [hp]; exact List.mem_cons_of_mem _ hm)
+      · rw [h3 j hj] at hm; exact h.1 j w hm
+    · intro j r' hr'
+      rcases step_mysubs hp hs j r' hr' with ⟨r, hr, hb⟩ | ⟨w, hw⟩
+      · rw [← hb]; exact h.2 j r hr
+      · cases hb : r'.bmp with
+        | false => rfl
+        | true =>
+          rw [hb] at hw
+          exact absurd (by rw [hp, hw]; exact List.mem_cons_self) (h.1 i w)
+
+theorem reach_NB {c : Case} (hc : noBmp c = true) {st : St} (h : Reach c st) : NB st := by
+  induction h with
+  | init => exact init_NB c hc
+  | step _ hs ih => exact step_NB ih hs
+
+
+/-- the master theorem with both hypotheses on the case -/
+theorem check_run_ok_of_noBmp (c : Case) (hc : caseOk c = true) (hb : noBmp c = true) :
+    Spec.check c (observe c (run c)) = .ok :=
+  check_run_ok c hc (reach_NB hb (run_reach c)).2
 
 end Rbgp.Monitor
